@@ -8,7 +8,7 @@ LEVEL = "other"
 GEN = ["RxGen", "UnicodeGen", "InlineGen", "BlockGen", "UtilGen", "NormalizeGen"]
 COQ = ["Props/C05.vo"]
 EXPLANATION = (
-    "PARTIAL proof + oracle. Proved on the block parser model (coq/Model/Block.v, tied by skeletons with constants, BlockGen and the token-tree correspondence run of this check), for every text: the children of a list are list items, list items occur nowhere else, and the children of quotes and list items are again well-formed block tokens at every depth (C05_block_tree_is_well_typed, an invariant carried through every handler and loop, no assumption on the patterns); and every heading anywhere in the tree has a level between 1 and 6 (C05_heading_levels_are_1_to_6: the ATX level is the length of capture group 1 of a match of an ATX rule, and two analyses proved sound - a group's capture spans within given bounds, a group always participates - are evaluated on the regenerated ATX patterns, including the list-item scanner's variants). The token grammar (block vs inline position, raw xor children, no "
+    "PARTIAL proof + oracle. Proved on the block parser model (coq/Model/Block.v, tied by skeletons with constants, BlockGen and the token-tree correspondence run of this check), for every text: the children of a list are list items, list items occur nowhere else, and the children of quotes and list items are again well-formed block tokens at every depth (C05_block_tree_is_well_typed; lifted through the inline pass to the whole AST of the document model, with heading levels 1-6, as C05_document_ast_is_well_typed; an invariant carried through every handler and loop, no assumption on the patterns); and every heading anywhere in the tree has a level between 1 and 6 (C05_heading_levels_are_1_to_6: the ATX level is the length of capture group 1 of a match of an ATX rule, and two analyses proved sound - a group's capture spans within given bounds, a group always participates - are evaluated on the regenerated ATX patterns, including the list-item scanner's variants). The token grammar (block vs inline position, raw xor children, no "
     "left-over 'text', heading levels 1-6, list/list_item typing with integer start, link/image url, table arity and "
     "alignment, nesting bound, JSON-serialisability) is checked by an independent Python validator on the token lists "
     "produced with renderer=None for generated documents under core, every plugin and both directive styles. Coq part "
